@@ -100,6 +100,9 @@ C03(z) ==
           d \in {-1, 0, UnixEpochDn, MinDn + 2, MaxDn - 2}, dd \in {-1, 0, 1}, t \in KeyTods, u \in KeyTods,
           o1 \in {0, 3600}, o2 \in {0, -3600}}
   \cup {Case([op |-> "date_cmp"], DateV(a), DateV(b)) : a \in KeyDays, b \in KeyDays}
+  \cup {Case([op |-> op], Dt(d, t[1], t[2], o), Dt(0, 0, 0, 0)) : op \in {"date_from_dt", "dt_copy"},
+          d \in KeyDays \ {MinDn, MaxDn}, t \in KeyTods, o \in {0, 3600, -86399}}
+  \cup {Case([op |-> op], DateV(d), DateV(d)) : op \in {"dt_from_date", "date_copy", "date_default", "dt_default", "time_default"}, d \in KeyDays}
 
 (***************************************************************************)
 \* C08: time of day modulo 24 h
@@ -125,6 +128,9 @@ C08(z) ==
      \cup {Case([op |-> "time_from_hms", h |-> W(h), mi |-> W(m), s |-> W(s)], DateV(0), DateV(0)) :
              h \in {0, 1, 23, 24}, m \in {0, 59, 60}, s \in {0, 59, 60}}
      \cup {Case([op |-> "time_cmp"], Tm(a[1], a[2], 0), Tm(b[1], b[2], 3600)) : a \in KeyTods, b \in KeyTods}
+     \cup {Case([op |-> op], a, a) : a \in ts, op \in {"dt_from_time", "time_copy"}}
+     \cup {Case([op |-> "dt_set_time"], Dt(d, t[1], t[2], o), b) : d \in {-1, 0, UnixEpochDn, MinDn + 1}, t \in {<<0, 0>>, <<86399, 999999999>>},
+             o \in {0, -3600}, b \in ts}
 
 (***************************************************************************)
 \* C09: setters and clears in local time
